@@ -250,6 +250,8 @@ def run_job(job):
         return rec_disp(a)
     if kind == "envhist":
         return rec_history(a)     # a list of env lines, one per get_environ of the history
+    if kind == "urlrec":
+        return rec_urlrec(a)
     raise ValueError(kind)
 
 
@@ -568,3 +570,170 @@ def rec_history(h: dict) -> list:
         for ln in lines:
             ln["err"] = ln["err"] or fatal.replace(":", "_")
     return lines
+
+
+# ====================================================================== growth: host spelling variants, URL reconstruction entry points
+def spell_host(rng: random.Random, hu: str, ha: str):
+    """another spelling of the same host: ASCII letter case (ACE prefix and labels, names, IPv6 hex digits), trailing dot.
+    Returns (spelled, unicode fact, IDNA fact); the facts stay lower case and come from Python's idna codec."""
+    base = ha if rng.random() < 0.7 else hu
+    if not base.startswith("[") and rng.random() < 0.3:
+        hu2 = hu + "."
+        try:
+            ha2 = hu2.encode("idna").decode("ascii")
+            if ha2.encode("ascii").decode("idna") == hu2:
+                hu, ha, base = hu2, ha2, base + "."
+        except UnicodeError:
+            pass
+    how = rng.choice(["upper", "upper", "mixed", "title", "aceprefix", "same"])
+    if how == "upper":
+        s = "".join(c.upper() if c.isascii() else c for c in base)
+    elif how == "mixed":
+        s = "".join((c.upper() if rng.random() < 0.5 else c) if c.isascii() else c for c in base)
+    elif how == "title":
+        s = ".".join((lab[:1].upper() + lab[1:]) if lab.isascii() else lab for lab in base.split("."))
+    elif how == "aceprefix":
+        s = ".".join(("XN--" + lab[4:] if rng.random() < 0.6 else "Xn--" + lab[4:]) if lab.startswith("xn--") else lab for lab in base.split("."))
+    else:
+        s = base
+    return s, hu, ha
+
+
+def gen_url_hostcase(rng: random.Random):
+    hu, ha = rng.choice(hosts())
+    host, hu, ha = spell_host(rng, hu, ha)
+    s = rng.choice(SCHEMES) + "://"
+    if rng.random() < 0.4:
+        s += gen_component(rng, "user", 4)
+        if rng.random() < 0.5:
+            s += ":" + gen_component(rng, "user", 4)
+        s += "@"
+    s += host
+    port = rng.choice(PORTS)
+    if port:
+        s += ":" + port
+    if rng.random() < 0.8:
+        s += "/" + gen_component(rng, "path", 5)
+    if rng.random() < 0.4:
+        s += "?" + gen_component(rng, "query", 4)
+    if rng.random() < 0.3:
+        s += "#" + gen_component(rng, "frag", 3)
+    return s, hu, ha
+
+
+BOUNDARY_PATHS = ["", "", "/", "/", "/x", "/x/", "x", "/a b/é", "/€/\U0001f600;p=1"]
+
+
+def gen_urlrec(rng: random.Random):
+    """an environ for all URL reconstruction entry points: boundary PATH_INFO values, non-empty queries, script roots with and
+    without trailing slash, optionally passed through DispatcherMiddleware with a request that names a mount exactly,
+    optionally a Host header in another spelling"""
+    hu, ha = rng.choice(hosts())
+    c = {"kind": rng.choice(["builder", "builder", "mount", "mount"]), "scheme": rng.choice(["http", "https", "ws", "wss"]),
+         "hostU": hu, "hostA": ha, "use_ascii_host": rng.random() < 0.4, "port": rng.choice(PORTS), "hostspell": None,
+         "root": rng.choice(["", "", "/app", "/app", "/äpp/v1", "/a b"]), "rootslash": rng.random() < 0.3,
+         "path": rng.choice(BOUNDARY_PATHS) if rng.random() < 0.7 else "/" + "/".join(_plain_text(rng) for _ in range(rng.choice([1, 2]))),
+         "pairs": [[_plain_text(rng, 3), rng.choice(["", _plain_text(rng), "a&b=c+d #%", "x y"])] for _ in range(rng.choice([0, 1, 1, 2, 3]))]}
+    if c["kind"] == "mount":
+        c["mount"] = rng.choice(["/m", "/m/é", "/api/v1", "/" + _plain_text(rng, 2).replace("/", "")])
+        c["rest"] = rng.choice(["", "", "", "/", "/x", "/x/é"])
+    if rng.random() < 0.3:
+        c["hostspell"], c["hostU"], c["hostA"] = spell_host(rng, hu, ha)
+    return c
+
+
+def _outs_for_environ(env, out):
+    """call every entry point on one environ; out(hr, hp, wq, url)"""
+    from werkzeug._internal import _wsgi_decoding_dance
+    from werkzeug.sansio.utils import get_current_url as sansio_url
+    from werkzeug.wrappers import Request
+    from werkzeug.wsgi import get_current_url
+
+    req = Request(env)
+    out(True, True, True, req.url)
+    out(True, True, False, req.base_url)
+    out(True, False, False, req.root_url)
+    out(True, False, False, req.url_root)
+    out(False, False, False, req.host_url)
+    for root_only in (False, True):
+        for strip in (False, True):
+            for host_only in (False, True):
+                u = get_current_url(env, root_only=root_only, strip_querystring=strip, host_only=host_only)
+                out(not host_only, not host_only and not root_only, not host_only and not root_only and not strip, u)
+    scheme, host = env["wsgi.url_scheme"], req.host
+    root = _wsgi_decoding_dance(env.get("SCRIPT_NAME", ""))
+    path = _wsgi_decoding_dance(env.get("PATH_INFO", ""))
+    qs = env.get("QUERY_STRING", "").encode("latin1")
+    out(False, False, False, sansio_url(scheme, host))
+    out(True, False, False, sansio_url(scheme, host, root))
+    out(True, False, False, sansio_url(scheme, host, root, None, qs))
+    out(True, True, False, sansio_url(scheme, host, root, path))
+    out(True, True, False, sansio_url(scheme, host, root, path, b""))
+    out(True, True, True, sansio_url(scheme, host, root, path, qs))
+    return qs
+
+
+def rec_urlrec(c: dict) -> dict:
+    from werkzeug.datastructures import MultiDict
+    from werkzeug.urls import uri_to_iri
+
+    ln = {"op": "urlrec", "scheme": cps(c["scheme"]), "hostU": cps(c["hostU"]), "hostA": cps(c["hostA"]), "port": cps(c["port"]),
+          "root": [-2], "path": [-2], "pairs": [], "qraw": [-2], "err": "", "outs": []}
+    outs = []
+
+    def out(hr, hp, wq, u):
+        outs.append({"hr": hr, "hp": hp, "wq": wq, "u": cps(u), "again": cps(uri_to_iri(u))})
+
+    b = None
+    try:
+        if c["kind"] == "direct":
+            from werkzeug.sansio.utils import get_current_url as sansio_url
+
+            root, path, q = c["root"], c["path"], bytes(c["q"])
+            host = c["hostA"] + (":" + c["port"] if c["port"] else "")
+            ln.update(root=[-2] if root is None else cps(root), path=[-2] if path is None else cps(path),
+                      pairs=[[cps(k), cps(v)] for k, v in c["pairs"]], qraw=list(q))
+            out(True, True, True, sansio_url(c["scheme"], host, root, path, q))
+            out(True, True, False, sansio_url(c["scheme"], host, root, path))
+            out(True, True, False, sansio_url(c["scheme"], host, root, path, None))
+            out(True, False, False, sansio_url(c["scheme"], host, root))
+            out(False, False, False, sansio_url(c["scheme"], host))
+        else:
+            from werkzeug.test import EnvironBuilder
+
+            host = c["hostA"] if c["use_ascii_host"] else c["hostU"]
+            if c["hostspell"]:
+                host = c["hostA"].rstrip(".") if c["hostA"].endswith(".") and not c["hostspell"].endswith(".") else c["hostA"]
+            base = f"{c['scheme']}://{host}{':' + c['port'] if c['port'] else ''}{c['root']}{'/' if c['rootslash'] or not c['root'] else ''}"
+            given = MultiDict([tuple(p) for p in c["pairs"]])
+            path = c["path"] if c["kind"] == "builder" else c["mount"] + c["rest"]
+            b = EnvironBuilder(path=path, base_url=base, query_string=given)
+            env = b.get_environ()
+            root_exp, path_exp = c["root"], path
+            if c["hostspell"]:
+                env["HTTP_HOST"] = c["hostspell"] + (":" + c["port"] if c["port"] else "")
+            if c["kind"] == "mount":
+                from werkzeug.middleware.dispatcher import DispatcherMiddleware
+
+                seen = {}
+
+                def app(environ, start_response):
+                    seen["env"] = environ
+                    return []
+
+                # environ strings are latin-1 views of UTF-8 bytes: the mount key is written the same way
+                key = c["mount"].encode("utf-8").decode("latin1")
+                DispatcherMiddleware(lambda e, s: [], {key: app, "/other": lambda e, s: []})(env, lambda *a, **k: None)
+                if "env" not in seen:
+                    raise RuntimeError("MountNotChosen")
+                env = seen["env"]
+                root_exp, path_exp = c["root"] + c["mount"], c["rest"]
+            ln.update(root=cps(root_exp), path=cps(path_exp), pairs=[[cps(k), cps(v)] for k, v in given.items(multi=True)])
+            ln["qraw"] = list(_outs_for_environ(env, out))
+    except Exception as ex:
+        ln["err"] = type(ex).__name__
+    finally:
+        if b is not None:
+            b.close()
+    ln["outs"] = outs
+    return ln
